@@ -287,12 +287,11 @@ def compare_replicas(plan, per_replica):
                                 fails.append({
                                     "prop": prop, "check": check, "site": csite,
                                     "detail": "lane %d call %d (%s %s): in a fresh interpreter "
-                                              "%s, in the interpreter where lane %s had been "
-                                              "cancelled at %s: %s" % (
+                                              "%s, in the interpreter where a call had been "
+                                              "cancelled (%s): %s" % (
                                                   li, si, sub["k"],
                                                   sub.get("fmt") or sub.get("name"),
                                                   json.dumps(alone, sort_keys=True)[:160],
-                                                  (op.get("interrupt") or {}).get("lane"),
                                                   rec.get("cancelled_at") or
                                                   ref.get("cancelled_at"),
                                                   json.dumps(after, sort_keys=True)[:160]),
